@@ -35,7 +35,23 @@ TECHNIQUE = 'property-based testing (Hypothesis) with constructed weak-key famil
 
 def _check_key(check, n, p, q, expect, clause, **ctx):
   key = art.rsa_key(n)
-  ret = libcall(check.Check, [key])
+  mode = ctx.pop('neighbour', 0)
+  if mode:
+    # the same check object also sees a healthy key of the same size: earlier in the batch (1), in an
+    # earlier call (2), or the weak key is submitted a second time on a fresh protobuf (3)
+    hp, hq = fam.healthy(Material(n % (1 << 61), 'c04nb'), n.bit_length())
+    other = art.rsa_key(hp * hq)
+    if mode == 1:
+      ret = libcall(check.Check, [other, key])
+    elif mode == 2:
+      libcall(check.Check, [other])
+      ret = libcall(check.Check, [key])
+    else:
+      libcall(check.Check, [art.rsa_key(n)])
+      ret = libcall(check.Check, [key])
+    ctx['neighbour'] = mode
+  else:
+    ret = libcall(check.Check, [key])
   name = type(check).__name__
   e = art.entry(key.test_info, name)
   if e is None:
@@ -160,7 +176,7 @@ def run_upper(desc):
     raise Violation('upperdiff:missed', n=n, p=p, q=q, L=L, diff='2^(L-%d)' % which,
                     got=None if res is None else [int(x) for x in res])
   _check_key(rsa_single_checks.CheckSmallUpperDifferences(), n, p, q, True, 'checkupperdiff',
-             diff=which)
+             diff=which, neighbour=desc.get('nb', 0))
   return {'nt': True, 'cls': ['upperdiff 2^(L-%d)' % which, 'upperdiff pbits=%d' % desc['pbits']],
           'L': L}
 
@@ -170,7 +186,7 @@ def strat_upper(tier):
   return st.fixed_dictionaries({
       'm': material,
       'pbits': st.sampled_from(sizes),
-      'which': st.integers(0, 5),
+      'which': st.integers(0, 5), 'nb': st.sampled_from([0, 0, 1, 2, 3]),
   })
 
 
@@ -198,7 +214,8 @@ def run_unseeded(desc):
   v = vals[desc['idx'] % len(vals)]
   p, q, n = _unseeded_case(mat, size, v, desc['variant'])
   _check_key(rsa_single_checks.CheckUnseededRand(), n, p, q, True, 'unseeded',
-             size=size, idx=desc['idx'] % len(vals), variant=desc['variant'])
+             size=size, idx=desc['idx'] % len(vals), variant=desc['variant'],
+             neighbour=desc.get('nb', 0))
   return {'nt': True, 'cls': ['unseeded size=%d' % size, 'unseeded variant=%d' % desc['variant']]}
 
 
@@ -206,7 +223,7 @@ def strat_unseeded(tier):
   sizes = [512, 512, 1024] if tier == 'quick' else [512, 1024, 1536, 2048]
   return st.fixed_dictionaries({
       'm': material, 'size': st.sampled_from(sizes), 'idx': st.integers(0, 400),
-      'variant': st.integers(0, 2)})
+      'variant': st.integers(0, 2), 'nb': st.sampled_from([0, 0, 1, 2, 3])})
 
 
 def enum_unseeded(tier):
@@ -219,7 +236,8 @@ def enum_unseeded(tier):
     n = len(unseeded_rands.size_unseeded_map[size])
     for idx in range(n):
       for variant in range(3):
-        yield {'m': size * 100003 + idx * 7 + variant, 'size': size, 'idx': idx, 'variant': variant}
+        yield {'m': size * 100003 + idx * 7 + variant, 'size': size, 'idx': idx, 'variant': variant,
+               'nb': (idx + variant) % 4}
 
 
 class _Storage(storage_mod.Storage):
